@@ -1,0 +1,336 @@
+//! C18 adapter: the real `PeerId` functions behind the line protocol.
+//!
+//! Every operation answers `ok <canonical value>` or `err <class>`; strings travel as the hex of
+//! their UTF-8 bytes so that arbitrary characters fit on a line.
+
+use crate::{
+    crypto::{ed25519, PublicKey},
+    verif::{hex, unhex as crate_unhex, VerifBox},
+    PeerId,
+};
+
+use multiaddr::{Multiaddr, Protocol};
+use serde::{Deserialize, Serialize};
+
+use std::str::FromStr;
+
+pub struct PeerIdBox;
+
+impl PeerIdBox {
+    pub fn new() -> Self {
+        PeerIdBox
+    }
+}
+
+/// Byte-string arguments are written `0x<hex>` (so that the empty string is a token).
+fn is_hex(s: &str) -> bool {
+    s.strip_prefix("0x")
+        .map_or(false, |s| s.len() % 2 == 0 && s.bytes().all(|b| b.is_ascii_hexdigit()))
+}
+
+fn unhex(s: &str) -> Vec<u8> {
+    crate_unhex(&s[2..])
+}
+
+fn parse_err(e: crate::peer_id::ParseError) -> String {
+    match e {
+        crate::peer_id::ParseError::B58(_) => "err b58".to_string(),
+        crate::peer_id::ParseError::MultiHash => "err multihash".to_string(),
+    }
+}
+
+/// Multiaddr round trips of a peer id: as a component, through the text form, through the binary
+/// form; an address without `/p2p` must yield nothing.
+fn multiaddr_round_trip(peer: PeerId) -> String {
+    let base = Multiaddr::empty()
+        .with(Protocol::Ip4(std::net::Ipv4Addr::new(127, 0, 0, 1)))
+        .with(Protocol::Tcp(30333));
+    if PeerId::try_from_multiaddr(&base).is_some() {
+        return "err spurious".to_string();
+    }
+    let address = base.with(Protocol::P2p(peer.into()));
+    let direct = PeerId::try_from_multiaddr(&address);
+    let text = address
+        .to_string()
+        .parse::<Multiaddr>()
+        .ok()
+        .and_then(|a| PeerId::try_from_multiaddr(&a));
+    let binary = Multiaddr::try_from(address.to_vec())
+        .ok()
+        .and_then(|a| PeerId::try_from_multiaddr(&a));
+    match (direct, text, binary) {
+        (Some(a), Some(b), Some(c)) if a == b && b == c => format!("ok {}", hex(&a.to_bytes())),
+        (a, b, c) => format!(
+            "err diverge {} {} {}",
+            a.map_or("none".into(), |p| hex(&p.to_bytes())),
+            b.map_or("none".into(), |p| hex(&p.to_bytes())),
+            c.map_or("none".into(), |p| hex(&p.to_bytes()))
+        ),
+    }
+}
+
+impl VerifBox for PeerIdBox {
+    fn step(&mut self, line: &str) -> String {
+        let t: Vec<&str> = line.split_whitespace().collect();
+        match t.as_slice() {
+            ["frombytes", data, ..] if is_hex(data) => match PeerId::from_bytes(&unhex(data)) {
+                Ok(peer) => format!("ok {}", hex(&peer.to_bytes())),
+                Err(e) => parse_err(e),
+            },
+            ["frompk", data, ..] if is_hex(data) => {
+                let peer = PeerId::from_public_key_protobuf(&unhex(data));
+                format!("ok {}", hex(&peer.to_bytes()))
+            }
+            ["edid", key, ..] if is_hex(key) => match ed25519::PublicKey::try_from_bytes(&unhex(key)) {
+                Ok(key) => {
+                    let public = PublicKey::Ed25519(key.clone());
+                    let peer = PeerId::from_public_key(&public);
+                    if key.to_peer_id() != peer
+                        || public.to_peer_id() != peer
+                        || peer.is_public_key(&public) != Some(true)
+                    {
+                        return "err inconsistent".to_string();
+                    }
+                    format!("ok {}", hex(&peer.to_bytes()))
+                }
+                Err(_) => "err badkey".to_string(),
+            },
+            ["fromstr", text, ..] if is_hex(text) => match String::from_utf8(unhex(text)) {
+                Ok(s) => match PeerId::from_str(&s) {
+                    Ok(peer) => format!("ok {}", hex(&peer.to_bytes())),
+                    Err(e) => parse_err(e),
+                },
+                Err(_) => "bad-op".to_string(),
+            },
+            ["b58dec", text, ..] if is_hex(text) => match String::from_utf8(unhex(text)) {
+                Ok(s) => match bs58::decode(&s).into_vec() {
+                    Ok(v) => format!("ok {}", hex(&v)),
+                    Err(bs58::decode::Error::InvalidCharacter { index, .. }) =>
+                        format!("err b58:char:{index}"),
+                    Err(bs58::decode::Error::NonAsciiCharacter { index }) =>
+                        format!("err b58:nonascii:{index}"),
+                    Err(_) => "err b58:other".to_string(),
+                },
+                Err(_) => "bad-op".to_string(),
+            },
+            ["b58enc", data, ..] if is_hex(data) =>
+                format!("ok {}", bs58::encode(unhex(data)).into_string()),
+            ["tomultiaddr", data, ..] if is_hex(data) => match PeerId::from_bytes(&unhex(data)) {
+                Ok(peer) => multiaddr_round_trip(peer),
+                Err(e) => parse_err(e),
+            },
+            ["serde", data, ..] if is_hex(data) => match PeerId::from_bytes(&unhex(data)) {
+                Ok(peer) => {
+                    let text = match peer.serialize(mini_serde::Ser { human: true }) {
+                        Ok(mini_serde::Value::Str(s)) => s,
+                        _ => return "err ser-text".to_string(),
+                    };
+                    let binary = match peer.serialize(mini_serde::Ser { human: false }) {
+                        Ok(mini_serde::Value::Bytes(b)) => b,
+                        _ => return "err ser-binary".to_string(),
+                    };
+                    let from_text = PeerId::deserialize(mini_serde::De {
+                        human: true,
+                        value: mini_serde::Value::Str(text.clone()),
+                    });
+                    let from_binary = PeerId::deserialize(mini_serde::De {
+                        human: false,
+                        value: mini_serde::Value::Bytes(binary.clone()),
+                    });
+                    match (from_text, from_binary) {
+                        (Ok(a), Ok(b)) if a == peer && b == peer =>
+                            format!("ok {} {}", text, hex(&binary)),
+                        _ => "err roundtrip".to_string(),
+                    }
+                }
+                Err(e) => parse_err(e),
+            },
+            ["deser", mode @ ("hr" | "bin"), data, ..] if is_hex(data) => {
+                let human = *mode == "hr";
+                let value = if human {
+                    match String::from_utf8(unhex(data)) {
+                        Ok(s) => mini_serde::Value::Str(s),
+                        Err(_) => return "bad-op".to_string(),
+                    }
+                } else {
+                    mini_serde::Value::Bytes(unhex(data))
+                };
+                match PeerId::deserialize(mini_serde::De { human, value }) {
+                    Ok(peer) => format!("ok {}", hex(&peer.to_bytes())),
+                    Err(_) => "err invalid".to_string(),
+                }
+            }
+            _ => "bad-op".to_string(),
+        }
+    }
+}
+
+/// The smallest serde data format that can carry a `PeerId`: one string or one byte string,
+/// human readable or not.
+mod mini_serde {
+    use serde::{de, ser};
+    use std::fmt;
+
+    #[derive(Debug, Clone)]
+    pub enum Value {
+        Str(String),
+        Bytes(Vec<u8>),
+    }
+
+    #[derive(Debug)]
+    pub struct Error(String);
+
+    impl fmt::Display for Error {
+        fn fmt(&self, f: &mut fmt::Formatter<'_>) -> fmt::Result {
+            f.write_str(&self.0)
+        }
+    }
+
+    impl std::error::Error for Error {}
+
+    impl ser::Error for Error {
+        fn custom<T: fmt::Display>(msg: T) -> Self {
+            Error(msg.to_string())
+        }
+    }
+
+    impl de::Error for Error {
+        fn custom<T: fmt::Display>(msg: T) -> Self {
+            Error(msg.to_string())
+        }
+    }
+
+    pub struct Ser {
+        pub human: bool,
+    }
+
+    macro_rules! unsupported {
+        ($($name:ident($($arg:ty),*);)*) => {
+            $(fn $name(self, $(_: $arg),*) -> Result<Value, Error> {
+                Err(Error("unsupported".into()))
+            })*
+        };
+    }
+
+    type No = ser::Impossible<Value, Error>;
+
+    impl ser::Serializer for Ser {
+        type Ok = Value;
+        type Error = Error;
+        type SerializeSeq = No;
+        type SerializeTuple = No;
+        type SerializeTupleStruct = No;
+        type SerializeTupleVariant = No;
+        type SerializeMap = No;
+        type SerializeStruct = No;
+        type SerializeStructVariant = No;
+
+        fn is_human_readable(&self) -> bool {
+            self.human
+        }
+
+        fn serialize_str(self, v: &str) -> Result<Value, Error> {
+            Ok(Value::Str(v.to_string()))
+        }
+
+        fn serialize_bytes(self, v: &[u8]) -> Result<Value, Error> {
+            Ok(Value::Bytes(v.to_vec()))
+        }
+
+        unsupported! {
+            serialize_bool(bool); serialize_i8(i8); serialize_i16(i16); serialize_i32(i32);
+            serialize_i64(i64); serialize_u8(u8); serialize_u16(u16); serialize_u32(u32);
+            serialize_u64(u64); serialize_f32(f32); serialize_f64(f64); serialize_char(char);
+            serialize_none(); serialize_unit(); serialize_unit_struct(&'static str);
+            serialize_unit_variant(&'static str, u32, &'static str);
+        }
+
+        fn serialize_some<T: ?Sized + ser::Serialize>(self, _: &T) -> Result<Value, Error> {
+            Err(Error("unsupported".into()))
+        }
+
+        fn serialize_newtype_struct<T: ?Sized + ser::Serialize>(
+            self,
+            _: &'static str,
+            _: &T,
+        ) -> Result<Value, Error> {
+            Err(Error("unsupported".into()))
+        }
+
+        fn serialize_newtype_variant<T: ?Sized + ser::Serialize>(
+            self,
+            _: &'static str,
+            _: u32,
+            _: &'static str,
+            _: &T,
+        ) -> Result<Value, Error> {
+            Err(Error("unsupported".into()))
+        }
+
+        fn serialize_seq(self, _: Option<usize>) -> Result<No, Error> {
+            Err(Error("unsupported".into()))
+        }
+
+        fn serialize_tuple(self, _: usize) -> Result<No, Error> {
+            Err(Error("unsupported".into()))
+        }
+
+        fn serialize_tuple_struct(self, _: &'static str, _: usize) -> Result<No, Error> {
+            Err(Error("unsupported".into()))
+        }
+
+        fn serialize_tuple_variant(
+            self,
+            _: &'static str,
+            _: u32,
+            _: &'static str,
+            _: usize,
+        ) -> Result<No, Error> {
+            Err(Error("unsupported".into()))
+        }
+
+        fn serialize_map(self, _: Option<usize>) -> Result<No, Error> {
+            Err(Error("unsupported".into()))
+        }
+
+        fn serialize_struct(self, _: &'static str, _: usize) -> Result<No, Error> {
+            Err(Error("unsupported".into()))
+        }
+
+        fn serialize_struct_variant(
+            self,
+            _: &'static str,
+            _: u32,
+            _: &'static str,
+            _: usize,
+        ) -> Result<No, Error> {
+            Err(Error("unsupported".into()))
+        }
+    }
+
+    pub struct De {
+        pub human: bool,
+        pub value: Value,
+    }
+
+    impl<'de> de::Deserializer<'de> for De {
+        type Error = Error;
+
+        fn is_human_readable(&self) -> bool {
+            self.human
+        }
+
+        fn deserialize_any<V: de::Visitor<'de>>(self, visitor: V) -> Result<V::Value, Error> {
+            match self.value {
+                Value::Str(s) => visitor.visit_str(&s),
+                Value::Bytes(b) => visitor.visit_bytes(&b),
+            }
+        }
+
+        serde::forward_to_deserialize_any! {
+            bool i8 i16 i32 i64 i128 u8 u16 u32 u64 u128 f32 f64 char str string
+            bytes byte_buf option unit unit_struct newtype_struct seq tuple
+            tuple_struct map struct enum identifier ignored_any
+        }
+    }
+}
